@@ -352,6 +352,11 @@ func (a *Account) GetNextVersion(logType types.ChangeLogType) uint32 {
 	return a.newestRecords[logType]
 }
 
+// rollbackVersion takes back the provisional versions above the version. It is used when change logs are reverted
+func (a *Account) rollbackVersion(logType types.ChangeLogType, version uint32) {
+	a.newestRecords[logType] = version
+}
+
 func (a *Account) SetVersion(logType types.ChangeLogType, version, blockHeight uint32) {
 	a.newestRecords[logType] = version
 	a.data.NewestRecords[logType] = types.VersionRecord{Version: version, Height: blockHeight}
